@@ -13,7 +13,9 @@ OpenSSL build than the one behind pyOpenSSL).  A case is a schedule:
               cd/sd k   : deliver the next k ciphertext bytes (0 = everything pending) to the proxy as one segment
               pc/ps n   : the child sends n bytes (up to 300 KB in one SendData) towards client/server; everything must have left
                           the proxy when the command has been processed
-              cclose/sclose : peer sends close_notify;  cfin/sfin : TCP close
+              cclose/sclose : peer sends close_notify;  cfin/sfin : TCP close;  ...+fin : both.  A FIN either takes effect at
+                          once (half-close: the peer is done sending, the inner layer may still write to it -- many schedules
+                          end that way, on either side) or after everything else
   afterwards everything pending is delivered, then the final oracle is evaluated.
 
 Oracle: the concatenation of DataReceived events the child got for a connection is at every step a prefix of -- and finally
@@ -41,12 +43,13 @@ ASSUMPTIONS = [
     "reordering visible (position-keyed pseudo-random bytes)",
     "bytes the proxy sends to a peer are handed to the peer in the chunks the proxy produced (peer-side reassembly is "
     "OpenSSL's business, not the property's)",
-    "after a peer has sent close_notify nothing more is sent towards that peer (TLS 1.2 forbids it; not part of the statement)",
+    "a peer that has finished sending (FIN and/or close_notify) still reads: the inner layer may keep sending while the "
+    "connection is writable, and those bytes must arrive (TCP half-close; Python-ssl peers keep decrypting after unwrap())",
 ]
 LEVEL_TEXT = ("generated schedules against real in-memory OpenSSL peers with a byte-stream equality oracle checked after "
               "every step; sampling, not exhaustive")
 LEVEL_NOTE = "trusts Python ssl/OpenSSL as peers and lib/driver's command interpretation"
-QUICK_N, THOROUGH_N = 20_000, 600_000
+QUICK_N, THOROUGH_N = 18_000, 600_000
 BUDGET_S = (240, 3600)
 
 _TABLE = b"".join(hashlib.sha256(b"c14-%d" % i).digest() for i in range(2048))  # 64 KiB
@@ -81,9 +84,17 @@ _close = st.sampled_from(["cclose", "sclose", "cfin", "sfin", "cclose+fin", "scl
 @st.composite
 def _case(draw):
     ops = draw(st.lists(_op, max_size=14))
-    closes = draw(st.lists(st.tuples(_close, st.integers(0, 14)), max_size=2))
-    for kind, pos in closes:
-        ops.insert(min(pos, len(ops)), (kind, 0))
+    # third component: 1 = a FIN takes effect at once (the peer's pending bytes are delivered, then the TCP close: the peer
+    # has finished sending but still reads -- half-close), 0 = the FIN arrives after everything else in the schedule
+    closes = draw(st.lists(st.tuples(_close, st.integers(0, 14), st.integers(0, 1)), max_size=2))
+    for kind, pos, now in closes:
+        ops.insert(min(pos, len(ops)), (kind, now))
+    # often the schedule ends with a half-close: one peer finishes sending (FIN, with or without close_notify before it) and
+    # the inner layer still answers on that connection afterwards
+    tail = draw(st.one_of(st.none(), st.tuples(_close, st.lists(_size, min_size=1, max_size=2))))
+    if tail is not None:
+        ops.append((tail[0], 1))
+        ops.extend(("pc" if tail[0][0] == "c" else "ps", n) for n in tail[1])
     return {
         "mode": draw(st.sampled_from(["eager", "eager", "lazy", "lazy", "client-only", "server-only"])),
         "cver": draw(st.sampled_from(["1.3", "1.2"])),
@@ -331,6 +342,7 @@ def check_case(case, ctx):
     # ---- application phase
     skipped = 0
     close_kinds = []
+    sends_after_close = []
     for op, arg in case["ops"]:
         side = C if op[0] == "c" or op == "pc" else S
         if op in ("cw", "sw"):
@@ -350,9 +362,11 @@ def check_case(case, ctx):
         elif op in ("cd", "sd"):
             deliver(side, arg)
         elif op in ("pc", "ps"):
-            if side.close_sent is not None or not (side.conn.state & ConnectionState.CAN_WRITE):
+            if not (side.conn.state & ConnectionState.CAN_WRITE):
                 skipped += 1
                 continue
+            if side.close_sent is not None:
+                sends_after_close.append((side.name, side.close_sent, bool(side.fin_delivered)))
             data = pattern(side.dir + 2, len(side.to_peer), arg)
             side.to_peer += data
             T.inject(d, commands.SendData(side.conn, data))
@@ -386,6 +400,13 @@ def check_case(case, ctx):
             else:
                 side.close_sent = "fin"
                 side.want_fin = True
+            if arg and getattr(side, "want_fin", False):
+                for _ in range(20):
+                    if d.crashed is not None or not deliver(side, 0):
+                        break
+                if d.crashed is None:
+                    side.fin_delivered = True
+                    d.close(side.conn)
         if d.crashed is not None:
             break
         if not invariant("after %s %r" % (op, arg)):
@@ -401,7 +422,7 @@ def check_case(case, ctx):
         if not moved:
             break
     for side in (C, S):
-        if getattr(side, "want_fin", False) and d.crashed is None:
+        if getattr(side, "want_fin", False) and d.crashed is None and not side.fin_delivered:
             side.fin_delivered = True
             d.close(side.conn)
     if d.crashed is not None:
@@ -473,6 +494,8 @@ def check_case(case, ctx):
         ctx.cls("trivial-%s" % mode)
     for k in close_kinds:
         ctx.cls("close:" + k)
+    for name, how, fin in sends_after_close:
+        ctx.cls("send-after-peer-%s/%s:%s" % (how, "fin-delivered" if fin else "fin-pending-or-none", name))
     if skipped:
         ctx.cls("ops-skipped", skipped)
     total = len(C.written) + len(S.written) + len(C.to_peer) + len(S.to_peer)
